@@ -102,6 +102,22 @@ def programs(tier, rng):
                                       'p.a if p.f else p.b', 'coalesce(p.b, 0)', 'max(p.a, p.b)', '(p.id, len(p.g.ps))', 'p.b is None', 'p.a > 1']:
         add('(%s for p in P)' % e, 'projection')
         add('(%s for p in P if p.b is not None)' % e, 'projection-filtered')
+    # operator nesting (parenthesisation in the builder): every ordered pair of arithmetic operators, both groupings
+    ops = ['+', '-', '*', '//', '%']
+    DIV = ('//', '%')
+    for o1 in ops:
+        for o2 in ops:
+            # divisors are kept constant (a symbolic divisor makes the query non-linear and z3 gives up)
+            right = '(2 %s 3)' % o2 if o1 in DIV else ('(p.b %s 3)' % o2)
+            add('((p.id, p.a %s %s) for p in P)' % (o1, right), 'nesting')
+            left = '(p.a %s 2)' % o1 if o1 in DIV else '(p.a %s p.b)' % o1
+            add('((p.id, %s %s %s) for p in P)' % (left, o2, '3' if o2 in DIV else 'x'), 'nesting')
+    # non-linear nestings (a symbolic divisor / product of two columns): decided on the bounded range [-4, 4]
+    for e in ['p.a // (p.b * 3)', 'p.a % (p.b * 2)', 'p.a / (p.b * 2)', 'p.a // (p.b + x)', '(p.a * p.b) // 3', 'p.a * (p.b // 2)', 'p.a - (p.b * x)', '(p.a - p.b) * x',
+              'p.a * p.b * x', 'p.a // p.b // 2', 'p.a % p.b % 3', 'p.a // (p.b // 2)', 'p.a % (p.b % 3)']:
+        progs.append(Program('((p.id, %s) for p in P)' % e, {'x': INT(1)} if 'x' in e else {}, 'string', 'nesting', int_range=(-4, 4)))
+    for e in ['-(p.a + p.b)', '-(p.a * 2)', '-p.a * 3', '-(p.a - x) - p.b', 'p.a - -p.b', 'abs(p.a - p.b) * 2', 'p.a / (2 * 3)', '(p.a / 2) * 3']:
+        add('((p.id, %s) for p in P)' % e, 'nesting')
     # pairs combined with and / or / not
     pairs = list(itertools.combinations(A, 2))
     rng.shuffle(pairs)
@@ -129,9 +145,12 @@ def programs(tier, rng):
         add('((g.name, p.a) for g in G for p in g.ps if %s)' % c, 'join')
         add('((p, g) for p in P for g in G if p.g == g and %s)' % c, 'join')
         add('(p for p in P for g in G if p.a == g.n and %s)' % c, 'join')
+        add('((g, p.f) for g in G for p in g.ps if %s)' % c, 'join')
+        add('(p.f for g in G for p in g.ps if %s)' % c, 'join')
+        add('((g.name, p.f) for g in G for p in g.ps if %s)' % c, 'join')
     if tier == 'quick':
-        core = [p for p in progs if p.note in ('atom', 'not-atom', 'g-atom', 'g-not-atom', 'join')]
-        rest = [p for p in progs if p.note not in ('atom', 'not-atom', 'g-atom', 'g-not-atom', 'join')]
+        core = [p for p in progs if p.note in ('atom', 'not-atom', 'g-atom', 'g-not-atom', 'join', 'nesting')]
+        rest = [p for p in progs if p.note not in ('atom', 'not-atom', 'g-atom', 'g-not-atom', 'join', 'nesting')]
         progs = core + rest
     seen = set(); out = []
     for p in progs:
@@ -161,8 +180,11 @@ def replay(pname, prog, model):
     except Exception as ex:
         return None, 'real query raised %s: %s' % (type(ex).__name__, str(ex)[:100]), None
     real_n, py_n, pred_n = e1.norm_rows(real), e1.norm_rows(model['python_rows']), e1.norm_rows(model['sql_rows_predicted'])
-    if real_n != pred_n:
-        return False, 'SQL model disagrees with the real engine: real=%r predicted=%r (harness error)' % (real_n, pred_n), real_n
+    real_l, pred_l = e1.norm_list(real), e1.norm_list(model['sql_rows_predicted'])
+    if real_l != pred_l:
+        return False, 'SQL model disagrees with the real engine: real=%r predicted=%r (harness error)' % (real_l, pred_l), real_n
+    if real_n == py_n and len(real_l) != len(real_n):
+        return True, 'real result contains duplicates %r; the documented result is duplicate-free %r' % (real_l, py_n), real_n
     return real_n != py_n, 'real rows %r, python-semantics rows %r' % (real_n, py_n), real_n
 
 
